@@ -162,6 +162,19 @@ def run(tier, seed):
         if not il.startswith("OK") and not il.startswith("ERR Lib:"):
             chk.violation(f"credential JSON parser raised outside the hierarchy: {il}", f"nonlib-parser {kind}-json {il}", {"entry": f"parse_{kind}_credential_json", "input": val, "impl": il})
         chk.seen(("json", kind, json.dumps(d, sort_keys=True)[:200]))
+    # "a single hierarchy": EVERY exception class the package defines, in whichever module (not only helpers/exceptions.py), derives from WebAuthnException - a class
+    # defined elsewhere is raised by code paths no generated input may reach (a hash pre-image, a published key), and `except WebAuthnException` would miss it
+    import pkgutil, importlib, webauthn as _wpkg
+    from webauthn.helpers.exceptions import WebAuthnException as _Base
+    for mi in pkgutil.walk_packages(_wpkg.__path__, "webauthn."):
+        try:
+            mod_ = importlib.import_module(mi.name)
+        except Exception:
+            continue
+        for nm_, obj_ in vars(mod_).items():
+            if inspect.isclass(obj_) and issubclass(obj_, BaseException) and getattr(obj_, "__module__", "").startswith("webauthn") and not issubclass(obj_, _Base):
+                chk.violation(f"exception class {obj_.__module__}.{obj_.__name__} (bases: {', '.join(b.__name__ for b in obj_.__bases__)}) is defined by the package outside its single hierarchy: whatever raises it escapes `except WebAuthnException`",
+                              f"hierarchy-elsewhere {obj_.__name__}", {"class": obj_.__module__ + "." + obj_.__name__, "mro": [k.__name__ for k in obj_.__mro__]})
     chk.notes.append({"malformed_structure_observations": dict(observed)})
     A.close(); B.close()
     fw.env_invariance(chk, "auth", "reg")          # the same seeded cases under -O / -OO, warnings-as-errors, other TZ / locale, a private CA bundle
